@@ -25,6 +25,7 @@ pub const SEARCH_ORIGIN_CAP: usize = 8;
 /// each seed's cases are dealt round-robin to this many long-lived children
 /// (a fresh process pays seconds for the first touch of large blocks, see alloc.rs)
 pub const LANES: usize = 16;
+pub const HANG_CONFIRMATIONS: u64 = 6;
 
 // ---------------------------------------------------------------------------
 // seeds
@@ -601,6 +602,7 @@ pub fn run(args: &Args) -> i32 {
     }
     let report = Report::new(args, "fault_enumeration");
     let unconfirmed_hangs = AtomicU64::new(0);
+    let confirmed_hangs = AtomicU64::new(0);
     let seeds = make_seeds(args.tier);
     let scratch = Scratch::new("c07p");
     let dir = scratch.dir.to_string_lossy().to_string();
@@ -639,13 +641,16 @@ pub fn run(args: &Args) -> i32 {
                 distinct.insert(&key);
             }
             let mut o = o;
-            if matches!(&o, Outcome::Died { kind: "hang", .. }) {
-                // a hang counts only if it repeats alone in a fresh child (time limits misfire on a loaded machine)
+            if matches!(&o, Outcome::Died { kind: "hang", .. }) && confirmed_hangs.load(Ordering::SeqCst) < HANG_CONFIRMATIONS {
+                // a hang counts only if it repeats alone in a fresh child (time limits misfire on a
+                // loaded machine); after HANG_CONFIRMATIONS confirmed hangs the limit is trusted
                 let mut again = None;
                 run_range_opt("C07", &[dir.clone(), seed.name.to_string(), format!("{dir}/w{ui}"), "0".into(), "1".into()], idx, idx + 1, true, &mut |_, o2| again = Some(o2));
                 if let Some(o2) = again {
                     if !matches!(&o2, Outcome::Died { kind: "hang", .. }) {
                         unconfirmed_hangs.fetch_add(1, Ordering::Relaxed);
+                    } else {
+                        confirmed_hangs.fetch_add(1, Ordering::SeqCst);
                     }
                     o = o2;
                 }
